@@ -23,3 +23,10 @@ func init() {
 		Assumptions: []string{"float64 ordinates and the conversion x*1e10 -> int64 are modelled over the reals (exact); ordinates within +-8e8 units"},
 	}
 }
+
+func init() {
+	propertyPlans["C02"] = &PropertyPlan{ID: "C02",
+		NotDecided: []string{"order of travel of the returned centres", "the level-by-level descent of snapClosestPoints (which parents are visited, which list a level's result is)", "second sentence (non-collapsing polygon = concatenation of routed edges)"},
+	}
+	propertyPlans["C14"] = &PropertyPlan{ID: "C14"}
+}
